@@ -10,34 +10,42 @@ def sh(cmd, cwd=None, timeout=3000):
     return p.returncode, p.stdout
 def clean():
     sh("git checkout -- . && git clean -fdq -e target", wt)
-meta = {"property": prop, "needs": needs, "ran": []}
-clean()
-os.makedirs(os.path.dirname(os.path.join(wt, demo_dest)), exist_ok=True)
-shutil.copy(os.path.join(seed, "demo.rs"), os.path.join(wt, demo_dest))
-rc0, out0 = sh(demo_cmd, wt)
-meta["ran"].append({"cmd": demo_cmd + "  (unchanged tree)", "exit": rc0})
-rc, _ = sh("git apply %s" % os.path.join(seed, "patch.diff"), wt)
-assert rc == 0, "patch does not apply"
-rc1, out1 = sh(demo_cmd, wt)
-meta["ran"].append({"cmd": demo_cmd + "  (with patch)", "exit": rc1})
-os.remove(os.path.join(wt, demo_dest))
-rc2, out2 = sh("cargo test --workspace --no-fail-fast --offline 2>&1", wt)
-passed = sum(int(m) for m in re.findall(r"test result: \w+\. (\d+) passed", out2))
-failed = sum(int(m) for m in re.findall(r"test result: \w+\. \d+ passed; (\d+) failed", out2))
-meta["ran"].append({"cmd": "cargo test --workspace --no-fail-fast --offline (with patch)", "passed": passed, "failed": failed})
-clean()
-ok = rc0 == 0 and rc1 != 0 and passed == 142 and failed == 0
-meta["confirmed"] = ok
-print("demo clean exit", rc0, "| demo patched exit", rc1, "| suite passed", passed, "failed", failed, "| confirmed", ok)
-if not ok:
-    print(out0[-800:] if rc0 else "", out1[-500:] if rc1 == 0 else "")
-    sys.exit(1)
+PHASE = os.environ.get("SEED_PHASE", "AB")
 dst = os.path.join("/verif/seeded", name)
-os.makedirs(dst, exist_ok=True)
-shutil.copy(os.path.join(seed, "patch.diff"), dst)
-shutil.copy(os.path.join(seed, "demo.rs"), dst)
-if os.path.exists(os.path.join(seed, "notes.md")):
-    shutil.copy(os.path.join(seed, "notes.md"), dst)
+if "A" not in PHASE:
+    meta = json.load(open(os.path.join(dst, "meta.json")))
+else:
+    meta = {"property": prop, "needs": needs, "ran": []}
+if "A" in PHASE:
+  clean()
+  os.makedirs(os.path.dirname(os.path.join(wt, demo_dest)), exist_ok=True)
+  shutil.copy(os.path.join(seed, "demo.rs"), os.path.join(wt, demo_dest))
+  rc0, out0 = sh(demo_cmd, wt)
+  meta["ran"].append({"cmd": demo_cmd + "  (unchanged tree)", "exit": rc0})
+  rc, _ = sh("git apply %s" % os.path.join(seed, "patch.diff"), wt)
+  assert rc == 0, "patch does not apply"
+  rc1, out1 = sh(demo_cmd, wt)
+  meta["ran"].append({"cmd": demo_cmd + "  (with patch)", "exit": rc1})
+  os.remove(os.path.join(wt, demo_dest))
+  rc2, out2 = sh("cargo test --workspace --no-fail-fast --offline 2>&1", wt)
+  passed = sum(int(m) for m in re.findall(r"test result: \w+\. (\d+) passed", out2))
+  failed = sum(int(m) for m in re.findall(r"test result: \w+\. \d+ passed; (\d+) failed", out2))
+  meta["ran"].append({"cmd": "cargo test --workspace --no-fail-fast --offline (with patch)", "passed": passed, "failed": failed})
+  clean()
+  ok = rc0 == 0 and rc1 != 0 and passed == 142 and failed == 0
+  meta["confirmed"] = ok
+  print("demo clean exit", rc0, "| demo patched exit", rc1, "| suite passed", passed, "failed", failed, "| confirmed", ok)
+  if not ok:
+      print(out0[-800:] if rc0 else "", out1[-500:] if rc1 == 0 else "")
+      sys.exit(1)
+  os.makedirs(dst, exist_ok=True)
+  shutil.copy(os.path.join(seed, "patch.diff"), dst)
+  shutil.copy(os.path.join(seed, "demo.rs"), dst)
+  if os.path.exists(os.path.join(seed, "notes.md")):
+      shutil.copy(os.path.join(seed, "notes.md"), dst)
+  json.dump(meta, open(os.path.join(dst, "meta.json"), "w"), indent=1)
+if "B" not in PHASE:
+    sys.exit(0)
 # run the checks against the change
 assert sh("git status --porcelain", "/repo")[1].strip() == "", "/repo not clean"
 det = {}
